@@ -303,11 +303,15 @@ define_fields(void)
 {
     const schema_t *s = &SCH[M.sch];
     char            names[32];
-    for (int i = 0; i < s->nf; i++)
+    /* in half of the configurations (those with 4-entry descriptor blocks) the fields are defined in the reverse of the order in
+       which VSsetfields names them: the record layout follows VSsetfields, not the order of definition */
+    for (int k = 0; k < s->nf; k++) {
+        int i = M.ndds == 4 ? s->nf - 1 - k : k;
         if (VSfdefine(vs, FN[i], s->f[i].type, s->f[i].order) == FAIL) {
             mc_violation("fdefine:failed", "VSfdefine(%s) failed", FN[i]);
             return 1;
         }
+    }
     subset_names(all_subset(), names);
     if (VSsetfields(vs, names) == FAIL) {
         mc_violation("setfields:failed", "VSsetfields(\"%s\") on a new Vdata failed", names);
